@@ -256,10 +256,13 @@ package schema
 //@   ensures normal ==> result1 == nil && result0.Value == n.value
 //@   ensures normal ==> result0.SchemaType == ((exists i :: 0 <= i && i < len(n.value) && n.value[i] == '|') ? "mixed" : n.schemaType)
 
+// (the loaders that drive a node live in a package the node classes cannot name:
+// their own state is out of reach of this method)
 //@ interface Node.AddConstraint(self, c)
 //@   requires isNode(self)
 //@   maypanic
 //@   modifies *
+//@   keeps loader.ruleLoader, loader.orRuleSetLoader
 //@ func (*Schema).AddUnnamedType(typ, rootFile, begin)
 //@   props C09
 //@   trusted "registers an anonymous type under a name derived from its address: arbitrary effect on the type table (nothing else assumed)"
